@@ -139,7 +139,7 @@ def _c06_out_kind(o):
         n = 0 if w[0] == "A=-" else len(w[0].split(","))
         r = w[2][2:]
         r = "err:last" if r.startswith("err:last") else r.split(":")[0] if r.startswith(("ok", "ignored")) else r
-        return "run attempts=%d %s" % (n, r)
+        return "fiber attempts=%d %s" % (n, r)
     last = o.split(" ")[-1] if o else ""
     return "dec last=" + last.split(":")[0]
 
@@ -148,7 +148,7 @@ PROPS["C06"] = dict(
     level_text="Theorems (Props/C06.lean) prove, for every plan (targets with or without a connection), every history of per-attempt outcomes of any length (every RequestAttemptError / DbError variant with arbitrary field values), the idempotence flag, the initial consistency and each of the three built-in retry policies: a request not marked idempotent gets attempt k+1 only if attempt k failed with unavailable / bootstrapping / no free stream id / read timeout (never after a broken connection, overloaded / server / truncate error or write timeout); the default policy makes at most one attempt at serial consistency; attempts <= plan length + 2 / 1 / 0 same-node retries (so the loop terminates: the model's fuel is proved never exhausted); the fiber sends exactly 1 + (number of retry decisions) attempts unless the plan ran out, on the target and at the consistency the decision named; fallthrough sends one attempt. The models are tied to retry/*.rs and execution.rs by a differential run (exhaustive decision tables over all reachable session states + the real run_request_no_side_effects over synthetic targets) with an oracle written from the property text.",
     level_note="Trusted: Lean kernel + {propext, Classical.choice, Quot.sound}; hand-written models Model/Retry.lean, Model/Exec.lean (tie = differential harness through the cfg(scylla_verif) pass-throughs request_info / run_request). The transparent re-prepare inside one attempt is C14, speculative fibers are C13.",
     lean_modules=["ScyllaVerif.Props.C06"],
-    rule="case = (dec: policy, idempotence, history of (consistency, error) fed to one retry session) or (run: policy, idempotence, initial consistency, plan, scripted outcomes); distinct case lines whose implementation output contains a retry/ignore decision or at least one attempt count as non-trivial",
+    rule="case = (dec: policy, idempotence, history of (consistency, error) fed to one retry session) or (run: policy, idempotence, initial consistency, plan, scripted outcomes) or (runx: the same under a scripted test retry policy); distinct case lines whose implementation output contains a retry/ignore decision or at least one attempt count as non-trivial",
     trivial=lambda c, o: o in ("-", "bad-case") or o.startswith("A=- "),
     out_kind=_c06_out_kind,
     trusted=[
@@ -256,7 +256,11 @@ PROPS["C08"] = dict(
         "frames whose header announces more than 1 MiB beyond the bytes present are not handed to read_response_frame (its up-front reservation is the driver's own TODO, outside C08)",
         "rows of a result with zero columns are iterated up to 1000 (each costs no input byte; rows_count is only bounded by i32::MAX)",
     ],
-    partial=[],
+    partial=[
+        "wellformed_roundtrip is proved for the primitives ([short], [int], [string], [bytes]/null) and the kinds READY, AUTHENTICATE, AUTH_CHALLENGE, AUTH_SUCCESS, RESULT/Void, RESULT/SetKeyspace (wellformed_roundtrip_partial); for ERROR, SUPPORTED, EVENT, RESULT/Rows, /Prepared, /SchemaChange it is checked per run by the harness oracle against an independent encoder, not proved",
+        "truncation_is_error is proved for [short], [int] and [string] (readString_truncation); for whole responses it is covered by the exhaustive truncation cases of the differential run",
+        "alloc ghost counts capacity REQUESTS (with_capacity / reserve) in element slots, not bytes copied while parsing (those are bounded by the bytes consumed)",
+    ],
 )
 
 PROPS["C01"] = dict(
@@ -277,7 +281,11 @@ PROPS["C01"] = dict(
         "round trip domain wfVal: value has the shape of the type; text is UTF-8, ascii is ASCII; time in 0..=86399999999999; varint has at least one byte; tuple/UDT types have at least one field, vector dimension > 0 (no such CQL types exist otherwise); UDT type field names distinct and every value field named in the type",
         "cells above i32::MAX bytes are covered by theorems only (not by the differential run)",
     ],
-    partial=[],
+    partial=[
+        "roundtrip_partial / roundtrip_cell_partial: the full round-trip statement (every value with the shape of the type) is false of the current tree on four shapes, each with a proved counterexample theorem and a corpus witness replayed on the real code: F1 zero-field tuple value for a non-empty tuple type (roundtrip_counterexample), F2 null/unset element directly inside a vector (carrier_counterexample), F8 zero-length last element of a variable-width vector (vector_trailing_empty_counterexample), F9 `empty` element of a fixed-width vector (vector_empty_element_counterexample); wfVal excludes exactly these",
+        "typed carriers: carrier_factor is not a Lean theorem - the embedding of each Rust carrier into CqlVal lives in the harness (harness/src/c01/carrier.rs) and is tied differentially (bytes vs model, typed decode vs original value)",
+        "not proved: that every wfVal value has a defined encoding below the size limit (encode totality); the harness oracle checks it on every in-domain case",
+    ],
 )
 
 PROPS["C19"] = dict(
